@@ -50,7 +50,7 @@ Dec(bs, cp) ==
 CpDecode(bs) == Dec(bs, "L")
 
 \* every code point some page can express (as far as the tables of this module know)
-Repertoire == (0..127) \cup UNION {{SBHigh[p][i] : i \in 1..128} : p \in SBPages}
+Repertoire == (0..127) \cup (65377..65439) \cup UNION {{SBHigh[p][i] : i \in 1..128} : p \in SBPages}
               \cup UNION {{DBPairs[p][i][3] : i \in 1..Len(DBPairs[p])} : p \in DBPages}
               \cup (IF UseTable THEN UNION {{DBTable[p][i] : i \in 1..Len(DBTable[p])} : p \in DBPages} \ {-1} ELSE {})
 Subst(s, known) == [i \in 1..Len(s) |-> IF s[i] \in known THEN s[i] ELSE 63]      \* '?' for what no page has
